@@ -43,6 +43,30 @@ CHECKS = {
         "note": "Trusted: Coq kernel+VM; HMAC-SHA1 modelled (RFC 2202 vectors checked in Coq, compared with the hmac crate by the correspondence); harness and hooks. No axioms.",
         "technique": "Coq proof (induction over the stream) + model/implementation correspondence via vm_compute",
     },
+    "C02": {
+        "text": "Theorems (Coq, all states and inputs): into_server accepts iff the presented proof equals sp_M1(user, salt, A, B, K(A, v, b)), returns M2 = H(A|M1|K) and K, else Err{client_proof := presented, server_proof := expected} (no server object by the type); verify_server_proof accepts iff m = H(A|M1|K) with the payload the other way round; all 160 single-bit changes are refused; M1 and M2 bind every field in collision form (fixed-width concatenation is injective). Tied to the code by batched bit-flip cases and field perturbations evaluated through the model, plus an implementation oracle over all 160 flips on hundreds of sessions.",
+        "design_ref": "DESIGN.md §3 C02",
+        "note": "Trusted: Coq kernel+VM; models of server.rs/client.rs; SHA-1 and num-bigint primitives modelled; harness/RNG tape hook. No axioms. 'Different password is refused' is stated honestly as: accepted => equal fields or an explicit SHA-1 collision.",
+        "technique": "Coq proof (decision = equality with the spec value; injectivity of fixed-width concatenation) + model/implementation correspondence via vm_compute",
+    },
+    "C03": {
+        "text": "Theorems (Coq, all inputs): each function of srp_internal.rs / srp_internal_client.rs equals the WoW-SRP6 specification byte for byte: verifier, B (incl. the public-key check outcome), u, server S, interleave for every 32-byte secret (every count of low-order zero bytes, zero included), M1 with the precomputed xor hash = H(N) xor H(g) (closed SHA-1 computation), M2; on the client A, S (signed intermediate, unreduced exponent) and M1 for ANY announced generator and ANY modulus 0 < N' < 2^256; and the values leaving the public typestate API as functions of (U, P, group, tape). Tied to the code through hooks (interleave, S, B, client S) and the public API under ten announced moduli, plus an independent textbook recomputation on thousands of sessions.",
+        "design_ref": "DESIGN.md §3 C03",
+        "note": "Trusted: Coq kernel+VM; SHA-1 and num-bigint primitives modelled; harness and hooks. No axioms.",
+        "technique": "Coq proof (model refines spec: padding, strip, even/odd split, square-and-multiply = b^e mod m) + model/implementation correspondence via vm_compute",
+    },
+    "C05": {
+        "text": "Theorems (Coq, ALL finite histories of attempts, by induction): the i-th verdict is true iff proof_i = H(U|cd_i|chal_i|K) where chal_0 is the login challenge and chal_(i+1) the i-th 16-byte tape segment, whatever earlier verdicts were; after any history user and key are unchanged and the challenge is the next drawn segment (unconditional refresh); the legitimate client is accepted n times in a row for every n; a pair accepted at steps i < j forces chal_i = chal_j or an explicit SHA-1 collision; the proof binds user, client data, challenge and key; the client draws a fresh 16-byte challenge per call. Tied to the code by random histories with tape-injected challenges evaluated through the model.",
+        "design_ref": "DESIGN.md §3 C05",
+        "note": "Trusted: Coq kernel+VM; SHA-1 modelled; model of verify_reconnection_attempt/calculate_reconnect_values; harness/RNG tape hook. No axioms.",
+        "technique": "Coq proof (induction over the attempt list) + model/implementation correspondence via vm_compute",
+    },
+    "C14": {
+        "text": "Theorems (Coq, all values of the peer-controlled arguments): into_server is never Panic for any stored verifier, accepted A and proof; reconnect verification is total; the client constructor with the built-in group is Ok for every B, salt and tape and verify_server_proof never panics; the zero secret a hostile server can force (B = k*v mod N, proved to give S = 0) is handled; world-login on all three modules never panics; every header encrypt/decrypt entry point (Vanilla, TBC, Wrath incl. decrypt_large without a prior attempt) returns from any state satisfying its invariant; N is prime (Pocklington certificate chain) hence the server's S is non-zero for a proper verifier. The pinned unbounded scan is refuted. Tied to the code by catch_unwind around adversarial calls in debug and release builds and model comparison on a sample.",
+        "design_ref": "DESIGN.md §3 C14, §4 F2",
+        "note": "Decided on the repaired scan (fix: 0562141). Trusted: Coq kernel+VM; num-bigint panic conditions as modelled; harness. No axioms (MathComp ssreflect used in primes/, axiom-free).",
+        "technique": "Coq proof (total functions with explicit Panic outcome; invariants; primality certificate) + catch_unwind oracle + model/implementation correspondence",
+    },
 }
 
 DONE = set(CHECKS)
